@@ -152,18 +152,22 @@ Print Assumptions C19_psi_to_dec_and_ra.
 (* ------------------------------------------------------------ rotate_signal_events_on_sphere *)
 (* The astropy operations are oracles O of the model.  Premises = their
    documented contracts: separation is the angle between the unit vectors;
-   directional_offset_by(pa, d) from a point of latitude in [-pi/2, pi/2]
+   directional_offset_by(pa, d) from a point whose latitude is in the set okLat
    returns the coordinates (lon in [0, 2 pi), lat in [-pi/2, pi/2]) of the point
-   at distance d in direction pa (north through east). *)
+   at distance d in direction pa (north through east).  okLat = [-pi/2, pi/2] is
+   the ideal oracle; astropy's own formulas satisfy the premises with okLat =
+   "cos(lat) >= 1e-12 or lat = +-pi/2" (C19_rses_contracts_satisfiable), so the
+   theorems are not vacuous; with okLat = [-pi/2, pi/2] the premise is FALSE for
+   astropy (C19_astropy_offset_gap_refuted). *)
 Theorem C19_rses_preserves_separation :
-  forall (e : R -> R) (O : sky_oracle (T := R)),
+  forall (e : R -> R) (O : sky_oracle (T := R)) (okLat : R -> Prop),
   (forall l1 b1 l2 b2, o_separation O l1 b1 l2 b2 = acos (vdot (dirv l1 b1) (dirv l2 b2))) ->
-  (forall lon lat pa d, - (PI / 2) <= lat <= PI / 2 -> 0 <= d <= PI ->
+  (forall lon lat pa d, okLat lat -> 0 <= d <= PI ->
      dirv (fst (o_offset_by O lon lat pa d)) (snd (o_offset_by O lon lat pa d)) = offset_point lon lat pa d
      /\ 0 <= fst (o_offset_by O lon lat pa d) < 2 * PI
      /\ - (PI / 2) <= snd (o_offset_by O lon lat pa d) <= PI / 2) ->
   forall src_ra src_dec true_ra true_dec reco_ra reco_dec,
-  - (PI / 2) <= src_dec <= PI / 2 ->
+  okLat src_dec ->
   angsep (RNum e) (fst (rses (RNum e) O src_ra src_dec true_ra true_dec reco_ra reco_dec))
                   (snd (rses (RNum e) O src_ra src_dec true_ra true_dec reco_ra reco_dec)) src_ra src_dec None
   = angsep (RNum e) reco_ra reco_dec true_ra true_dec None.
@@ -171,14 +175,14 @@ Proof. exact rses_preserves_sep. Qed.
 Print Assumptions C19_rses_preserves_separation.
 
 Theorem C19_rses_range :
-  forall (e : R -> R) (O : sky_oracle (T := R)),
+  forall (e : R -> R) (O : sky_oracle (T := R)) (okLat : R -> Prop),
   (forall l1 b1 l2 b2, o_separation O l1 b1 l2 b2 = acos (vdot (dirv l1 b1) (dirv l2 b2))) ->
-  (forall lon lat pa d, - (PI / 2) <= lat <= PI / 2 -> 0 <= d <= PI ->
+  (forall lon lat pa d, okLat lat -> 0 <= d <= PI ->
      dirv (fst (o_offset_by O lon lat pa d)) (snd (o_offset_by O lon lat pa d)) = offset_point lon lat pa d
      /\ 0 <= fst (o_offset_by O lon lat pa d) < 2 * PI
      /\ - (PI / 2) <= snd (o_offset_by O lon lat pa d) <= PI / 2) ->
   forall src_ra src_dec true_ra true_dec reco_ra reco_dec,
-  - (PI / 2) <= src_dec <= PI / 2 ->
+  okLat src_dec ->
   0 <= fst (rses (RNum e) O src_ra src_dec true_ra true_dec reco_ra reco_dec) < 2 * PI
   /\ - (PI / 2) <= snd (rses (RNum e) O src_ra src_dec true_ra true_dec reco_ra reco_dec) <= PI / 2.
 Proof. exact rses_range. Qed.
@@ -189,9 +193,9 @@ Print Assumptions C19_rses_range.
    reconstruction has in the true direction's frame, i.e. separation and
    position angle are both carried over *)
 Theorem C19_rses_preserves_frame :
-  forall (e : R -> R) (O : sky_oracle (T := R)),
+  forall (e : R -> R) (O : sky_oracle (T := R)) (okLat : R -> Prop),
   (forall l1 b1 l2 b2, o_separation O l1 b1 l2 b2 = acos (vdot (dirv l1 b1) (dirv l2 b2))) ->
-  (forall lon lat pa d, - (PI / 2) <= lat <= PI / 2 -> 0 <= d <= PI ->
+  (forall lon lat pa d, okLat lat -> 0 <= d <= PI ->
      dirv (fst (o_offset_by O lon lat pa d)) (snd (o_offset_by O lon lat pa d)) = offset_point lon lat pa d
      /\ 0 <= fst (o_offset_by O lon lat pa d) < 2 * PI
      /\ - (PI / 2) <= snd (o_offset_by O lon lat pa d) <= PI / 2) ->
@@ -199,7 +203,7 @@ Theorem C19_rses_preserves_frame :
      sin (acos (vdot (dirv l1 b1) (dirv l2 b2))) * cos (o_position_angle O l1 b1 l2 b2) = vdot (dirv l2 b2) (north l1 b1)
      /\ sin (acos (vdot (dirv l1 b1) (dirv l2 b2))) * sin (o_position_angle O l1 b1 l2 b2) = vdot (dirv l2 b2) (east l1 b1)) ->
   forall src_ra src_dec true_ra true_dec reco_ra reco_dec,
-  - (PI / 2) <= src_dec <= PI / 2 ->
+  okLat src_dec ->
   let out := rses (RNum e) O src_ra src_dec true_ra true_dec reco_ra reco_dec in
   vdot (dirv (fst out) (snd out)) (dirv src_ra src_dec) = vdot (dirv reco_ra reco_dec) (dirv true_ra true_dec)
   /\ vdot (dirv (fst out) (snd out)) (north src_ra src_dec) = vdot (dirv reco_ra reco_dec) (north true_ra true_dec)
@@ -262,6 +266,36 @@ Theorem C19_astropy_offset_gap_refuted : forall (e : R -> R),
 Proof. exact ap_offset_by_gap_refuted. Qed.
 Print Assumptions C19_astropy_offset_gap_refuted.
 
+(* the premises of C19_rses_preserves_* hold for the transcribed astropy formulas *)
+Theorem C19_rses_contracts_satisfiable : forall (e : R -> R),
+  (forall l1 b1 l2 b2, o_separation (ap_oracle (RNum e)) l1 b1 l2 b2 = acos (vdot (dirv l1 b1) (dirv l2 b2)))
+  /\ (forall lon lat pa d, (1 / 1000000000000 <= cos lat \/ lat = PI / 2 \/ lat = - (PI / 2)) -> 0 <= d <= PI ->
+      dirv (fst (o_offset_by (ap_oracle (RNum e)) lon lat pa d)) (snd (o_offset_by (ap_oracle (RNum e)) lon lat pa d))
+        = offset_point lon lat pa d
+      /\ 0 <= fst (o_offset_by (ap_oracle (RNum e)) lon lat pa d) < 2 * PI
+      /\ - (PI / 2) <= snd (o_offset_by (ap_oracle (RNum e)) lon lat pa d) <= PI / 2)
+  /\ (forall l1 b1 l2 b2,
+      sin (acos (vdot (dirv l1 b1) (dirv l2 b2))) * cos (o_position_angle (ap_oracle (RNum e)) l1 b1 l2 b2) = vdot (dirv l2 b2) (north l1 b1)
+      /\ sin (acos (vdot (dirv l1 b1) (dirv l2 b2))) * sin (o_position_angle (ap_oracle (RNum e)) l1 b1 l2 b2) = vdot (dirv l2 b2) (east l1 b1)).
+Proof. exact ap_oracle_meets_contracts. Qed.
+Print Assumptions C19_rses_contracts_satisfiable.
+
+(* EVERY source declination in [-pi/2, pi/2], astropy's approximate pole branch
+   included - in particular every double the code can receive as a pole (no
+   double equals pi/2; for the nearest one cos = 6.1e-17, inside that branch):
+   the cosine of the separation from the source differs from the cosine of the
+   separation reco-true by at most 2 cos(src_dec) < 2e-12, and by 0 outside the
+   approximate branch *)
+Theorem C19_rses_astropy_all_latitudes :
+  forall (e : R -> R) src_ra src_dec true_ra true_dec reco_ra reco_dec,
+  - (PI / 2) <= src_dec <= PI / 2 ->
+  Rabs (vdot (dirv (fst (rses_ap (RNum e) src_ra src_dec true_ra true_dec reco_ra reco_dec))
+                   (snd (rses_ap (RNum e) src_ra src_dec true_ra true_dec reco_ra reco_dec))) (dirv src_ra src_dec)
+        - vdot (dirv reco_ra reco_dec) (dirv true_ra true_dec))
+  <= (if Rlt_dec (cos src_dec) (1 / 1000000000000) then 2 * cos src_dec else 0).
+Proof. exact rses_ap_all_latitudes. Qed.
+Print Assumptions C19_rses_astropy_all_latitudes.
+
 (* the code performs the rotation unconditionally: no `if`, a single `return` *)
 Theorem C19_rses_unconditional : rses_nif = 0%Z /\ rses_nreturn = 1%Z.
 Proof. exact (conj K_rses_nif K_rses_nreturn). Qed.
@@ -306,6 +340,17 @@ Theorem C19_range_full_refuted : forall (e : R -> R),
     /\ ~ (- (PI / 2) <= snd (hor2equ (RNum e) azi zen mjd) <= PI / 2).
 Proof. exact hor2equ_dec_refuted. Qed.
 Print Assumptions C19_range_full_refuted.
+
+(* the statement skeletons of all anchored functions are pinned by the translator
+   (fail-closed `shape` kernels): an inserted store, re-bound argument, branch or
+   return breaks the build of G_coords.v *)
+Theorem C19_statement_skeletons_pinned :
+  sh_angular_separation = true /\ sh_rotate_spherical_vector = true /\ sh_rotate_signal_events_on_sphere = true
+  /\ sh_azi_to_ra_transform = true /\ sh_ra_to_azi_transform = true /\ sh_hor_to_equ_transform = true
+  /\ sh_psi_to_dec_and_ra = true /\ sh_tdm_field_func_psi = true /\ sh_get_tdm_field_func_psi = true
+  /\ sh_signalpdf_calculate_pd = true.
+Proof. repeat split; reflexivity. Qed.
+Print Assumptions C19_statement_skeletons_pinned.
 
 (* ------------------------------------------------------------ end to end *)
 (* what the analysis sees: an MC event rotated onto the source (either rotation
@@ -367,6 +412,20 @@ Qed.
 (* the guard of the astropy theorems is met e.g. on the equator *)
 Example C19_nonvacuous_guard : 1 / 1000000000000 <= cos 0 /\ - (PI / 2) <= 0 <= PI / 2.
 Proof. rewrite cos_0. generalize PI_RGT_0. lra. Qed.
+
+(* instances of the guarded theorems at concrete inputs meeting the guards *)
+Example C19_instance_involution : forall e : R -> R,
+  azi2ra (RNum e) (azi2ra (RNum e) 1 58457) 58457 = 1.
+Proof. intros e. apply (C19_azi_ra_involution e 1 58457). generalize PI2_1. lra. Qed.
+
+Example C19_instance_psi : forall e : R -> R,
+  angsep (RNum e) (snd (psi2decra (RNum e) (1 / 2) 2 1 3)) (fst (psi2decra (RNum e) (1 / 2) 2 1 3)) 2 (1 / 2) None = 1.
+Proof. intros e. apply (C19_psi_to_dec_and_ra e (1 / 2) 2 1 3). generalize PI2_1. lra. Qed.
+
+Example C19_instance_rses : forall e : R -> R,
+  angsep (RNum e) (fst (rses_ap (RNum e) 1 0 2 (1 / 2) 2 1)) (snd (rses_ap (RNum e) 1 0 2 (1 / 2) 2 1)) 1 0 None
+  = angsep (RNum e) 2 1 2 (1 / 2) None.
+Proof. intros e. apply (C19_rses_astropy_preserves_separation e 1 0 2 (1 / 2) 2 1). left. rewrite cos_0. lra. Qed.
 
 (* two different coordinate pairs denoting the same point (the pole) *)
 Example C19_nonvacuous_equal_directions : dirv 0 (PI / 2) = dirv 1 (PI / 2) /\ (0 <> 1).
